@@ -57,6 +57,27 @@ NAMES = ["p256", "p384", "p521", "ed25519", "ed448"]
 ALG_OF = {"p256": "es-256", "p384": "es-384", "p521": "es-521", "ed25519": "eddsa", "ed448": "eddsa"}
 
 
+def key_dir_alt() -> str:
+    """a second key directory: the SAME file names hold OTHER keys (identity <name>_alt); used as a per-node context."""
+    d = os.path.join(core.run_scratch(), "keys_alt")
+    marker = os.path.join(d, ".complete")
+    if os.path.exists(marker):
+        return d
+    tmp = d + f".tmp{os.getpid()}"
+    os.makedirs(tmp, exist_ok=True)
+    for i in range(6):
+        for n in ("ed25519", "p256"):
+            with open(os.path.join(tmp, f"{n}_n{i}.pem"), "wb") as fh:
+                fh.write(pem(f"{n}_n{i}_alt"))
+    open(os.path.join(tmp, ".complete"), "w").close()
+    try:
+        os.rename(tmp, d)
+    except OSError:
+        import shutil
+        shutil.rmtree(tmp, ignore_errors=True)
+    return d
+
+
 def key_dir(_unused=None) -> str:
     """One key directory per check run (idempotent, safe under concurrent workers)."""
     d = os.path.join(core.run_scratch(), "keys")
